@@ -42,7 +42,7 @@ def runs_ok(labels):
     return True
 
 
-def check_feature(obj, f, X, y, kind, vals, viol, raw_vals=None):
+def check_feature(obj, f, X, y, kind, vals, viol, raw_vals=None, extra_ok=()):
     raw = next((r for r, lst in obj.features_casting.items() if f in lst), f)  # multiclass: f_<class> is fed by the raw column
     order = obj.values_orders[f]
     leaders = [l for l in order if not space.is_nan_leader(l)]
@@ -101,7 +101,7 @@ def check_feature(obj, f, X, y, kind, vals, viol, raw_vals=None):
         rank = {v: i for i, v in enumerate(vals)}
         prev_hi = -1
         for l in leaders:
-            foreign = [m for m in order.content[l] if isinstance(m, str) and m not in rank and not space.is_nan_leader(m)]
+            foreign = [m for m in order.content[l] if isinstance(m, str) and m not in rank and m not in extra_ok and not space.is_nan_leader(m)]
             if foreign:
                 viol.append({"kind": "ordinal-foreign-value", "what": f"{f}: group {order.content[l]!r} holds {foreign!r}, which are not values of the user ranking {vals!r}"})
             mem = [m for m in order.content[l] if m in rank]
@@ -172,8 +172,50 @@ def run_case(case):
             info += check_feature(obj, f, fit["X"], fit["y"], "CAT", [], res["violations"])
             continue
         info += check_feature(obj, f, fit["X"], fit["y"], case["kind"], vals, res["violations"], raw_vals=list(fit["vals"]))
+    tag = ""
+    if not res["violations"] and case.get("carver") != "multiclass" and "f" in obj.features:
+        # the same oracle (a) after the observers were called, (b) after the leader of a group was renamed by hand
+        import contextlib
+        import io
+        import warnings
+
+        from . import c17
+
+        def again(label, extra_ok=()):
+            sub = []
+            for f in list(obj.features):
+                if f == "f":
+                    check_feature(obj, f, fit["X"], fit["y"], case["kind"], vals, sub, raw_vals=list(fit["vals"]), extra_ok=extra_ok)
+            for v in sub:
+                res["violations"].append({"kind": label + ":" + v["kind"], "what": f"{label}: {v['what']}"})
+
+        try:
+            with contextlib.redirect_stdout(io.StringIO()), warnings.catch_warnings():
+                warnings.simplefilter("ignore")
+                obj.summary()
+                obj.to_json()
+                if hasattr(obj, "history"):
+                    obj.history()
+            observed = True
+        except Exception:  # noqa  (the observers themselves are judged by C16 / C06)
+            observed = False
+        if observed:
+            again("after summary()/to_json()/history()")
+            tag += "+observed"
+        if not res["violations"] and not case.get("kw"):
+            quant = "f" in obj.quantitative_features
+            evs = [e for e in c17.enabled(obj, fit["X"], case["kind"]) if e[0] == "replace" and (not quant or e[2] > e[1])]
+            if evs:
+                try:
+                    c17.apply_edit(obj, evs[0])
+                    edited = True
+                except Exception:  # noqa  (the edit itself is C17's business)
+                    edited = False
+                if edited:
+                    again(f"after update_discretizer{tuple(evs[0])}", extra_ok=(evs[0][2],))
+                    tag += "+renamed"
     # carvers on categorical features: groups are runs of the rate-sorted base modalities (also judged in C01)
-    res["outcome"] = f"{case['type']}:{case['kind']}:{obj.output_dtype}:{'nan' if case.get('nan') else '-'}"
+    res["outcome"] = tag.lstrip("+") + ("|" if tag else "") + f"{case['type']}:{case['kind']}:{obj.output_dtype}:{'nan' if case.get('nan') else '-'}"
     if info >= 2:
         res["nontrivial"] = repr(sorted(case.items(), key=str))
     res["sample"]["order"] = {f: [repr(x) for x in obj.values_orders[f]] for f in obj.features}
